@@ -89,6 +89,21 @@ TABLE = [
      'blocks == union of read coverage, len(seq)==len(qual)==CIGAR query length, MD rebuilt against the true reference, unanimous => that '
      'base, symmetric evidence => N, dominating evidence => that base, SM/RX/DS/TF/TR tags equal the molecule\'s.',
      'Reads with N bases and CHIC molecules with assignment radius >0 are not generated; "no record skips more than max_N_span" is taken from the parameter name.'),
+    ('C07',
+     'schedule enumeration: every check_eject_every in {None,0..n} x pooling method x cache size x fragment class for every coordinate-ordered multiset-word of fragment letters, on the real MoleculeIterator; differential oracle against the never-eject run',
+     'All multisets of <=5 (thorough <=6) fragments over 12 letters (5 sites placed around the half-cache margin, short and long fragments, '
+     'two cells, two UMIs, a reverse-strand fragment, a second contig), delivered in coordinate order with every order among ties, x every '
+     'ejection interval None,0..n x pooling 0/1 x cache 100/1000 x NlaIII / CHIC radius 0 / CHIC radius 15. Oracle: partition equals the '
+     'never-eject partition, every fragment emitted exactly once, pooling methods agree for exact UMIs on site-exact classes. '
+     'Non-prefix ejections are counted as the non-trivial cases.',
+     'Fragments span < half the cache size; UMIs compared exactly; input order = order in which a sorted BAM reader completes the pairs.'),
+    ('C18',
+     'explicit-state search over histories of resolver runs sharing one cache directory (state = exact cache directory content), every run configuration x contig access sequence from every reached state; differential oracle (eager cache-free resolver) + independent VCF-text reader',
+     'Runs = mode (eager/lazy/cache/cache+eager) x select_samples x ignore_conversions x phased x first operation x contig access sequence '
+     'over {c1,c2,c3_random,absent} (8160 runs per state); from every cache state reached (quick depth 2, 37 states; thorough depth 3, 477 '
+     'states) all runs are executed and at every access all (position, base) lookups and has_location answers are compared; plus 288 '
+     'Molecule.allele conformance cases.',
+     'phased=False, missing genotypes and multi-base sites are only covered by the all-modes-agree comparison; region_start/region_end, prefetch and uglyMode are not generated.'),
 ]
 
 # id -> reason it is currently not claimed
